@@ -235,7 +235,7 @@ def c03(ctx):
 
 def c17(ctx):
     modes = [("conc2", 0)] if ctx.quick() else [("conc2", 0), ("conc3", 0)]
-    return _writers(ctx, "C17", modes, 6000 if ctx.quick() else 80000, real_limit=200 if ctx.quick() else 3000)
+    return _writers(ctx, "C17", modes, 6000 if ctx.quick() else 80000, real_limit=100 if ctx.quick() else 3000)
 
 
 # ---------------------------------------------------------------------------
@@ -719,7 +719,7 @@ def c18(ctx):
     scn_path = os.path.join(ctx.scratch, "scn.ndjson")
     write_ndjson(scn_path, scns)
     trace = os.path.join(ctx.scratch, "trace.ndjson")
-    run_vh(ctx, ["propagation", "-scn", scn_path, "-out", trace, "-seed", ctx.seed, "-n", 100 if q else 1500], timeout=6 * 3600)
+    run_vh(ctx, ["propagation", "-scn", scn_path, "-out", trace, "-seed", ctx.seed, "-n", 70 if q else 1500], timeout=6 * 3600)
     cls = validate_trace(ctx, "Trace_Propagation", trace, {"Known": known, "AsBuilt": asbuilt}, shards=4 if q else 12)
     lines = {x["id"]: x for x in read_ndjson(trace)}
     tally = Tally(ctx)
